@@ -9,6 +9,10 @@ REL = {"name": "native-release", "profile": "release"}
 
 LANES = {
     "C01": [dict(REL)],
+    "C02": [dict(REL)],
+    "C03": [dict(REL)],
+    "C04": [dict(REL)],
+    "C19": [dict(REL)],
 }
 
 LEVELS = {
